@@ -1337,7 +1337,7 @@ class VectorFftCorr(Unit):
     module = MOD
     qualname = "vector_fft_corr"
     prop = "C15"
-    timeout = 10
+    timeout = 5
 
     def cases(self):
         return [f"d={d}/{sp}/{o}" for d in (2, 3) for sp in ("linear", "log") for o in ("file",)] + ["d=2/linear/default-name"]
@@ -1669,6 +1669,9 @@ class VectorFftCorr(Unit):
         from pyvc.pandas_model import df_content
         d, T, Q, G, FT, of = inp["d"], inp["T"], inp["Q"], inp["G"], inp["FT"], inp["of"]
         res = out.value
+        # every clause follows from the invariants by linear arithmetic + congruence: one attempt with products as uninterpreted
+        # functions and without Σ-axiom instances, no fall-back chain (a false clause fails fast and the replay decides)
+        FAST = {"abstract_nl": True, "abstract_only": True, "solver_opts": {"unfold": False, "ext": False, "rounds": 1}}
         ok = isinstance(res, Ref) and res.kind == "dict" and list(res.content.keys()) == HEADERS
         yield "returns-dict-with-exactly-the-keys-FFT,T_FFT,L_FFT", bool(ok)
         # ---- spectra: the frame written to outputfile + ".spectra.csv"
@@ -1682,7 +1685,8 @@ class VectorFftCorr(Unit):
             for ci, nm in enumerate(AVE_COLS):
                 want = sv.div(Sum(0, T, lambda t: FT.ave(t, g, ci)), T)
                 eqs.append(sv.implies(ing, sv.cmp("==", csvs[0][2][nm].get((g,)), want)))
-            yield "spectra=frame-average-of-the-averaged-tables", sv.and_(*eqs)
+            # (single-frame path: sum_{t<T} with T = 1 has to be unfolded, so the Σ-axiom instances stay in this query)
+            yield "spectra=frame-average-of-the-averaged-tables", sv.and_(*eqs), {"abstract_nl": True, "abstract_only": True}
         else:
             yield "spectra=frame-average-of-the-averaged-tables", False
         stores = [e for e in out.state.events if e[0] == "store" and e[1] in inp["watch"]]
@@ -1706,12 +1710,12 @@ class VectorFftCorr(Unit):
             if not shape_ok:
                 continue
             yield (f"{H}:q-columns=round8(frame-0-table)",
-                   sv.implies(inn, sv.and_(*[sv.cmp("==", c["pre"]["cols"][nm].get((n,)), r8(FT.col(nm)(0, n))) for nm in qcols])))
+                   sv.implies(inn, sv.and_(*[sv.cmp("==", c["pre"]["cols"][nm].get((n,)), r8(FT.col(nm)(0, n))) for nm in qcols])), FAST)
             want_tc = df_content(inp["tc_col"](H, n))["cols"]
             yield (f"{H}:lag-columns=round8(time_correlation(condition_n).time_corr)",
-                   sv.implies(sv.and_(inn, ink), sv.cmp("==", c["block"].get((n, k)), r8(want_tc["time_corr"].get((k,))))))
+                   sv.implies(sv.and_(inn, ink), sv.cmp("==", c["block"].get((n, k)), r8(want_tc["time_corr"].get((k,))))), FAST)
             tk = sv.mul(sv.to_real(sv.sub(inp["tsf"](k), inp["tsf"](0))), inp["dt"])
-            yield f"{H}:lag-column-labels=t-column-of-the-callee", sv.implies(ink, sv.cmp("==", c["labels"].get((k,)), tk))
+            yield f"{H}:lag-column-labels=t-column-of-the-callee", sv.implies(ink, sv.cmp("==", c["labels"].get((k,)), tk)), FAST
             mine = [t for t in saves if t[1] == of + "." + H + ".npy"]
             if len(mine) == 1 and len(saves) == 3 and isinstance(mine[0][2], A.Arr) and mine[0][2].ndim == 2:
                 arr = mine[0][2]
@@ -1721,7 +1725,7 @@ class VectorFftCorr(Unit):
                                lambda: c["block"].get((n, A.simp(sv.sub(j, p)))))
                 inj = sv.and_(sv.cmp(">=", j, 0), sv.cmp("<", j, sv.add(p, T)))
                 yield (f"{H}:npy-file=values", sv.and_(sv.cmp("==", arr.shape[0], Q), sv.cmp("==", arr.shape[1], sv.add(p, T)),
-                                                       sv.implies(sv.and_(inn, inj), sv.cmp("==", arr.get((n, j)), wantv))))
+                                                       sv.implies(sv.and_(inn, inj), sv.cmp("==", arr.get((n, j)), wantv))), FAST)
             else:
                 yield f"{H}:npy-file=values", False
 
